@@ -87,11 +87,14 @@ def impl_functions():
     fs['determine_suitable_iri_pattern'] = lambda strs, flag, opt: mi.AnnotateMinIriStrategy._determine_suitable_iri_pattern(None, opt)
     ty = importlib.import_module("shexer.utils.triple_yielders")
     fs['check_if_property_belongs_to_namespace_list'] = lambda strs, flag, opt: "1" if ty.check_if_property_belongs_to_namespace_list(strs[0], strs[1:]) else "0"
+    bs = importlib.import_module("shexer.io.shex.formater.statement_serializers.base_statement_serializer")
+    fs['serializer_prefixize_uri_if_possible'] = lambda strs, flag, opt: bs.BaseStatementSerializer._prefixize_uri_if_possible(
+        strs[0], dict(zip(strs[1::2], strs[2::2])))
     fs['get_shape_label_for_class_uri'] = lambda strs, flag, opt: l2s.ListOfClassesToShapeMap._get_shape_label_for_class_uri(None, strs[0])
     return fs
 
 
-ARITY = {'check_if_property_belongs_to_namespace_list': 1, 'determine_suitable_iri_pattern': 0, 'longest_common_prefix': 2, 'remove_corners': 1, 'decide_literal_type': 1, 'build_shapes_name_for_class_uri': 2, 'get_shape_label_for_class_uri': 1}
+ARITY = {'serializer_prefixize_uri_if_possible': 1, 'check_if_property_belongs_to_namespace_list': 1, 'determine_suitable_iri_pattern': 0, 'longest_common_prefix': 2, 'remove_corners': 1, 'decide_literal_type': 1, 'build_shapes_name_for_class_uri': 2, 'get_shape_label_for_class_uri': 1}
 
 
 def gen_function(rng, names):
@@ -103,6 +106,13 @@ def gen_function(rng, names):
     if name == 'check_if_property_belongs_to_namespace_list':
         nss = ['http://example.org/', 'http://example.org/deep/', 'http://example.org/dee', 'http://example.org/ns#', '', 'http://other.example/']
         strs = [rng.choice(nss) + rstr(rng, ['p', 'q', '/', '#', '1', 'deep'], 0, 3)] + rng.sample(nss, rng.randint(0, 3))
+    if name == 'serializer_prefixize_uri_if_possible':
+        nss = ['http://example.org/', 'http://example.org/deep/', 'http://example.org/dee', 'http://example.org/ns#', 'urn:x:', 'ab', 'http://other.example/']
+        keys = rng.sample(nss, rng.randint(0, 4))            # a Python dict: pairwise distinct keys
+        tail = rstr(rng, ['p', 'q', '/', '#', '1', 'deep', 'urn:x:', 'ab', 'http://example.org/'], 0, 3)
+        strs = [rng.choice(nss) + tail]
+        for k in keys:
+            strs += [k, rng.choice(['ex', 'e', '', 'x1'])]
     if name == 'build_shapes_name_for_class_uri' and rng.random() < 0.7:
         strs[1] = rng.choice(['http://weso.es/shapes/', 'http://example.org/s#', ''])
     flag = rng.random() < 0.5
@@ -130,7 +140,7 @@ def run(rng, n, names=None, prebuilt=None):
         try:
             r = fs[name](strs, flag, opt)
             e = ('str', r)
-        except (ValueError, RuntimeError, IndexError) as ex:
+        except (ValueError, RuntimeError, IndexError, KeyError) as ex:
             e = ('err', type(ex).__name__)
         except Exception as ex:   # anything else is outside the translated fragment's exception vocabulary
             e = ('err', "other:" + type(ex).__name__)
